@@ -228,6 +228,34 @@ def failed_jobs_only_grow(chk: Check):
         chk.ok("scheduler:failedJobs only grows", "", "failures are recorded by aio_submit and reset only by experiment.__enter__")
 
 
+def r9_earlier_success_survives(chk: Check):
+    """`unless it had already succeeded in an earlier run`: registering the dependencies may flag the job ERROR (a dependency that failed before
+    the submission); the success marker must be consulted after that, whatever the state, and win"""
+    tree = chk.tree
+    sub = tree.func("scheduler.base", "Scheduler.aio_submit")
+    g = CFG(sub.node)
+    loc = chk.loc(sub.module, sub.node)
+    regs = [n for n in g.live if n.kind == "for" and src(n.ast.iter) == "job.dependencies"]
+    chk.min_instances(len(regs), 1, "dependency registration loop in aio_submit")
+    lts = [n for n in g.live if n.kind == "test" and isinstance(n.stmt, ast.While) and src(n.ast) == "job.state.finished()"]
+    chk.require(len(lts) == 1, chk.fkey(sub, "start loop"), "the start loop `while not job.state.finished()` was not found", loc)
+    if len(lts) != 1:
+        return
+    tests = []
+    for n in g.live:
+        if n.kind == "test" and src(n.ast) in ("job.donepath.exists()", "job.donepath.is_file()"):
+            nxt = [m for b, l in n.succ if l is True for m, _ in b.succ]
+            if any(m.kind == "stmt" and src(m.ast) == "job.state = JobState.DONE" for m in nxt):
+                if not any(t.kind == "test" and "state" in src(t.ast) for t, _ in g.guards(n)):
+                    tests.append(n)
+    for lp in regs:
+        done = [b for b in g.live if b.kind == "branch" and b.extra["test"] is lp and b.extra["polarity"] == "done"]
+        ok = bool(tests) and all(g.must_pass(b, lts[0], tests) for b in done)
+        chk.require(ok, chk.fkey(sub, "success marker wins over a cancelled dependency"),
+                    "after the dependencies are registered (which may flag the job ERROR) the start loop is reachable without an unconditional look at the success marker: "
+                    "a job that succeeded in an earlier run is reported failed, and its own dependents are cancelled", loc)
+
+
 RULES = [
     ("R1", "a dependency on a job is FAIL exactly when the upstream job is in ERROR (= C04.R3)", c04.r3_status_mapping),
     ("R2", "cancellation block: FAIL and not finished => ERROR + failure_status DEPENDENCY + wake-up; FAIL on a finished job writes nothing; only fields of self are written", r2_cancellation),
@@ -235,6 +263,7 @@ RULES = [
     ("R4", "on every live exit of aio_submit, after the state is final, every dependent is re-checked", r4_propagation),
     ("R5", "reporting: failedJobs records exactly the jobs not DONE; wait() raises iff failedJobs; __exit__ waits iff no exception escaped", r5_reporting),
     ("R8", "a dependency that already failed when the dependent is submitted cancels it too: every dependency is registered, counted and checked at submission (= C04.R4)", c04.r4_registration_order),
+    ("R9", "an earlier success survives: after dependency registration every path to the start loop consults the success marker unconditionally (not only when the state is still open) and stores DONE", r9_earlier_success_survives),
     ("R7", "a job is DONE only if its process exited with code 0 or its success marker exists (= C06.R2): a killed job is never reported as a success to its dependents or to the experiment", r7_done_is_truthful),
     ("R6", "jobs that do not depend on a failure run to completion: the experiment waits for every registered job (counter pairing, = C06.R3)", r6_others_complete),
 ]
